@@ -110,7 +110,9 @@ type Ctx struct {
 	NShards int
 	Stats   Stats
 	Start   time.Time
-	Budget  time.Duration // soft budget; workers may stop early and record a cap
+	Budget  time.Duration     // soft budget; workers may stop early and record a cap
+	Flush   func()            // writes the statistics gathered so far (used by watchdogs before exiting)
+	Touch   func(what string) // tells a watchdog that a new unit of work started
 }
 
 func (c *Ctx) Mine(idx int64) bool { return int(idx%int64(c.NShards)) == c.Shard }
@@ -420,17 +422,21 @@ func RunWorker(id, tier string, shard, n int, out string) int {
 	if b := envInt("VERIF_BUDGET_S", 0); b > 0 {
 		c.Budget = time.Duration(b) * time.Second
 	}
+	flush := func() int {
+		b, err := json.Marshal(&c.Stats)
+		if err != nil {
+			fmt.Fprintln(os.Stderr, err)
+			return 2
+		}
+		if err := os.WriteFile(out, b, 0o666); err != nil {
+			fmt.Fprintln(os.Stderr, err)
+			return 2
+		}
+		return 0
+	}
+	c.Flush = func() { flush() }
 	ck.Worker(c)
-	b, err := json.Marshal(&c.Stats)
-	if err != nil {
-		fmt.Fprintln(os.Stderr, err)
-		return 2
-	}
-	if err := os.WriteFile(out, b, 0o666); err != nil {
-		fmt.Fprintln(os.Stderr, err)
-		return 2
-	}
-	return 0
+	return flush()
 }
 
 // ---------------------------------------------------------------------------
